@@ -18,7 +18,7 @@ INFO = {
                "(d) Context::new_with_input receives (value, position before the parse, position after the parse, "
                "per-file counter, run-wide counter) and stores each in the field of that meaning; every selector "
                "reads its own field; (e) Reader.location is written only by Reader::next, which adds 1 to the line "
-               "and resets the column on 0x0A and adds 1 to the column on every other byte, for all 256 bytes.",
+               "and resets the column on 0x0A and adds 1 to the column on every other byte, for all 256 bytes. A file that ends inside a value is a recoverable error, so the files after it are still read.",
     "not_decided": "That consecutive ranges are contiguous and contain the value's text as a run-time statement "
                    "about arbitrary inputs (follows from (d)+(e) only informally), and directory traversal order "
                    "(the operating system's).",
@@ -477,3 +477,7 @@ def run(ctx, rep):
     constructor(rep, lib)
     files(rep, lib, ctx.cg)
     location(rep, lib)
+    # a file that ends inside a value must not end the run: the files after it are still read (an UnexpectedEof
+    # is recoverable; only an I/O error is fatal)
+    from rules import c06_shared
+    c06_shared.recover(rep, lib, rid="C16-RECOVER", require_recoverable=True)
